@@ -487,9 +487,11 @@ pub fn fen_rank_text(b: &Board, rank: usize) -> Text<9> {
     t
 }
 
-/// ` w KQkq e3 0 N`: side, castling rights, e.p. square (rank 6 when White is to move, 3 when Black is),
-/// half-move clock (the engine always writes 0), full-move number (1..=9 supported here)
-pub fn fen_tail_text(v: &View, fullmove: u8) -> Text<16> {
+/// ` w KQkq e3 `: side, castling rights, e.p. square (rank 6 when White is to move, 3 when Black is), each
+/// preceded by one space, and the space that introduces the counters.  The two counters that follow
+/// (half-move clock, full-move number) are outside every property: `fen_counters_ok` only asks for two
+/// non-empty decimal numbers separated by one space.
+pub fn fen_tail_text(v: &View) -> Text<16> {
     let mut t = Text::new();
     t.push(b' ');
     t.push(if v.white_to_move { b'w' } else { b'b' });
@@ -502,6 +504,24 @@ pub fn fen_tail_text(v: &View, fullmove: u8) -> Text<16> {
     if !any { t.push(b'-'); }
     t.push(b' ');
     if v.ep < 8 { t.push(b'a' + v.ep); t.push(if v.white_to_move { b'6' } else { b'3' }); } else { t.push(b'-'); }
-    t.push(b' '); t.push(b'0'); t.push(b' '); t.push(b'0' + fullmove);
+    t.push(b' ');
     t
+}
+
+/// `digits space digits` (at most 7 bytes looked at)
+pub fn fen_counters_ok(s: &[u8]) -> bool {
+    let n = s.len();
+    if n < 3 || n > 7 { return false; }
+    let mut spaces = 0;
+    let mut ok = true;
+    let mut i = 0;
+    while i < 7 {
+        if i < n {
+            let c = s[i];
+            if c == b' ' { spaces += 1; if i == 0 || i == n - 1 { ok = false; } }
+            else if !(b'0' <= c && c <= b'9') { ok = false; }
+        }
+        i += 1;
+    }
+    ok && spaces == 1
 }
